@@ -9,7 +9,7 @@ a fold of the configured function seeded with the initial value, making progress
 (f); I/O results always compared with the requested length (C11.a), write order
 of a store (C11.b).  Not decided: user checksum callbacks, detection strength of
 the checksum, torn-write collision probabilities."""
-from .. import cast, sym, lin, k4o, front
+from .. import cast, sym, bitdom, lin, k4o, front
 from ..sym import C, fmt, linearize as L
 from ..lin import Lin
 
@@ -260,13 +260,13 @@ def width_of_path(p, cx):
     return w
 
 
-def rule_width(cx):
-    """C10.d"""
+def rule_width(cx, rule='C10.d', fns=('checksum_size', 'persistent_checksum', 'persistent_calculate_checksum',
+                                      'persistent_store_checksum', 'persistent_fetch_checksum', 'persistent_match')):
+    """C10.d (and, for the functions validation depends on, C11.v)"""
     ck = cx.ck
     sites = 0
-    for fn in ('checksum_size', 'persistent_checksum', 'persistent_calculate_checksum',
-               'persistent_store_checksum', 'persistent_fetch_checksum', 'persistent_match'):
-        ps = cx.paths(fn, 'C10.d')
+    for fn in fns:
+        ps = cx.paths(fn, rule)
         if ps is None:
             continue
         bad = None
@@ -290,9 +290,49 @@ def rule_width(cx):
             if fn == 'checksum_size' and p.ret is not None and p.ret != C(w // 8):
                 bad = '%d-bit checksum reported as %s octets' % (w, fmt(p.ret))
         sites += 1
-        ck.verdict(bad is None, 'C10.d', fn, cx.where(fn),
+        if bad is None and not used and fn != 'checksum_size':
+            bad = 'no arm uses a checksum member of its own width'
+        ck.verdict(bad is None, rule, fn + (':width' if rule != 'C10.d' else ''), cx.where(fn),
                    'each checksum-type arm uses only the members of its own width' if bad is None else bad)
-    ck.floor('C10.d', 'width dispatch sites', sites, 5)
+    ck.floor(rule, 'width dispatch sites', sites, min(5, len(fns)))
+    if 'persistent_match' in fns and cx.P.get('persistent_match'):
+        # the comparison that decides validation: equality of the two values at the full configured width
+        bad = broken = None
+
+        def operand(t, w):
+            """('a'|'b', None) for <param>.sum<w> seen through value-preserving casts, else (None, why)"""
+            while t[0] == 'cast':
+                ti = bitdom.type_info(bitdom.resolve_typedefs(cx.u, t[1]))
+                if not ti or len(ti) != 3:
+                    return None, None
+                if ti[0] < w:
+                    return None, 'operand %s is narrowed to %d bits before the comparison' % (fmt(t[2]), ti[0])
+                t = t[2]
+            if t[0] == 'f' and t[2] == 'sum%d' % w and t[1][0] == '&' and t[1][1] in (('v', 'a'), ('v', 'b')):
+                return t[1][1][1], None
+            if t[0] == 'f' and t[2].startswith('sum'):
+                return None, '%d-bit arm compares member %s' % (w, t[2])
+            return None, None
+        for p in cx.P['persistent_match']:
+            w = width_of_path(p, cx)
+            r = p.ret
+            while r is not None and r[0] == 'cast':
+                r = r[2]
+            if w is None or r is None or r[0] != 'cmp' or r[1] != '==':
+                broken = 'result %s is not an equality of the two checksum values' % (fmt(p.ret) if p.ret else None)
+                continue
+            (x, wx), (y, wy) = operand(r[2], w), operand(r[3], w)
+            if wx or wy:
+                bad = wx or wy
+            elif {x, y} != {'a', 'b'}:
+                broken = 'comparison %s is not between a.sum%d and b.sum%d' % (fmt(r), w, w)
+        if broken and not bad:
+            ck.broken(rule, 'persistent_match:full-width', cx.where('persistent_match'), broken)
+        else:
+            ck.verdict(bad is None, rule, 'persistent_match:full-width', cx.where('persistent_match'),
+                       'each arm returns a.sumW == b.sumW at the full width W of the configured checksum' if bad is None else bad)
+    if rule != 'C10.d':
+        return
     for fn, w in (('persistent_sum16', 16), ('persistent_sum32', 32)):
         ps = cx.paths(fn, 'C10.d')
         if ps is None:
@@ -640,6 +680,8 @@ def run_c11(ck):
     ck.verdict = v2
     rule_validate(cx)
     ck.verdict = orig
+    # a checksum compared, stored or fetched at less than its configured width lets a torn checksum write validate
+    rule_width(cx, 'C11.v', ('persistent_match', 'persistent_store_checksum', 'persistent_fetch_checksum'))
 
 
 def run(ck):
